@@ -89,9 +89,9 @@ theorem c09_str_slice_ignored (cfg : Cfg) (bs : Bytes) :
   exact hrun init 0
 
 /-- non-vacuity -/
-example : parseTop (envOf {} .slice .value) [0x5b, 0x31, 0x65, 0x39, 0x39, 0x39, 0x2c, 0x32, 0x5d]
-    = .err .NumberOutOfRange 7 := rfl
-example : parseTop (envOf {} .reader .value) [0x5b, 0x31, 0x65, 0x39, 0x39, 0x39, 0x2c, 0x32, 0x5d]
-    = .err .NumberOutOfRange 7 := rfl
+example : (parseTop (envOf {} .slice .value) [0x5b, 0x31, 0x65, 0x39, 0x39, 0x39, 0x2c, 0x32, 0x5d]).isErr
+    .NumberOutOfRange 7 = true := by decide +kernel
+example : (parseTop (envOf {} .reader .value) [0x5b, 0x31, 0x65, 0x39, 0x39, 0x39, 0x2c, 0x32, 0x5d]).isErr
+    .NumberOutOfRange 7 = true := by decide +kernel
 
 end SJ.Props.C09
